@@ -770,6 +770,18 @@ class LibMixin:
                 return self.astype(st, node, v, kind)
         if isinstance(v, Tup) and all(isinstance(x, Sc) for x in v.items):
             return self.list_from_vals(st, v.items)
+        if isinstance(v, Ref) and isinstance(st.obj(v), HListTup):
+            # a list of k-tuples of numbers becomes an (n, k) array: row i holds the i-th record
+            o = st.obj(v)
+            kind = "real" if "real" in o.kinds else "int"
+            i, j = z3.Int("i!rec"), z3.Int("j!rec")
+            def cell(c, kd):
+                e = z3.Select(c, i)
+                return z3.ToReal(e) if (kind == "real" and kd == "int") else e
+            row = cell(o.cols[-1], o.kinds[-1])
+            for jj in range(len(o.cols) - 2, -1, -1):
+                row = z3.If(j == jj, cell(o.cols[jj], o.kinds[jj]), row)
+            return st.alloc(HArr2(kind, z3.Lambda([i], z3.Lambda([j], row)), o.n, zint(len(o.cols))))
         raise VCError("np.array of %r at line %d" % (v, node.lineno))
 
     l_np_asarray = l_np_array
